@@ -805,11 +805,19 @@ func c06To(t *rapid.T, re *rootEnv, h *history) {
 			}
 			sort.Strings(names)
 			for _, k := range names {
-				switch T.AttrTypes[k].(type) {
+				switch x := T.AttrTypes[k].(type) {
 				case types.ListType:
 					T.Attrs[k] = types.List{Null: true}
+					// or a stale value of another kind: the null object of the element type (the field was a
+					// single message once)
+					if eo, ok := x.ElemType.(types.ObjectType); ok && coin(t, 1, 2, "stale/"+k) {
+						T.Attrs[k] = types.Object{Null: true, AttrTypes: eo.AttrTypes}
+					}
 				case types.MapType:
 					T.Attrs[k] = types.Map{Null: true}
+					if eo, ok := x.ElemType.(types.ObjectType); ok && coin(t, 1, 2, "stale/"+k) {
+						T.Attrs[k] = types.Object{Null: true, AttrTypes: eo.AttrTypes}
+					}
 				}
 			}
 			h.add("TargetPlaceholders", "lists and maps without element types")
